@@ -6,7 +6,14 @@ from typing import Callable, Generic, TypeVar
 
 from ..common import TypeHint
 from ..feature_requirement import HAS_TV_TUPLE, HAS_UNPACK
-from .basic_utils import get_type_vars, get_type_vars_of_parametrized, is_generic, is_parametrized, strip_alias
+from .basic_utils import (
+    get_type_vars,
+    get_type_vars_of_parametrized,
+    is_generic,
+    is_parametrized,
+    is_user_defined_generic,
+    strip_alias,
+)
 from .fundamentals import get_generic_args
 from .implicit_params import fill_implicit_params
 from .normalize_type import normalize_type
@@ -27,7 +34,8 @@ class GenericResolver(Generic[K, M]):
         self._raw_members_getter = members_getter
 
     def get_resolved_members(self, tp: TypeHint) -> MembersStorage[K, M]:
-        if is_parametrized(tp):
+        if is_parametrized(tp) or (strip_alias(tp) is not tp and is_user_defined_generic(strip_alias(tp))):
+            # ``X[()]``: a variadic generic parametrized with an empty sequence has no args
             return self._get_members_of_parametrized_generic(tp)
         if is_generic(tp):
             return self._get_members_of_parametrized_generic(fill_implicit_params(tp))
